@@ -68,3 +68,26 @@ Theorem fold_right_assoc (rec : list positive -> heap -> world -> task -> out) (
 Proof. exact (SeqSpec.fold_right_assoc rec f sp app PURE). Qed.
 Print Assumptions fold_right_assoc.
 
+(* filter: one application per element in list order; the kept elements are the ORIGINAL elements whose answer is True, in their original order *)
+Theorem filter_in_order (rec : list positive -> heap -> world -> task -> out) (f : evalr) (sp : span) (app : list value -> value) (PURE : forall ip h w xs, rec ip h w (TComp (proc_body (PApply f sp xs))) = Done h w (inl (app xs)) 0) l ip h w :
+  Forall (fun x => is_bool (app [x]) = true) l ->
+  runG rec value ip h w (filter_core f sp l) = DoneG h w (inl (VList (keep_true app l))) 0.
+Proof. exact (SeqSpec.filter_in_order rec f sp app PURE l ip h w). Qed.
+Print Assumptions filter_in_order.
+
+(* an answer that is no Boolean makes the filter a type error *)
+Theorem filter_needs_booleans (rec : list positive -> heap -> world -> task -> out) (f : evalr) (sp : span) (app : list value -> value) (PURE : forall ip h w xs, rec ip h w (TComp (proc_body (PApply f sp xs))) = Done h w (inl (app xs)) 0) l ip h w :
+  existsb (fun x => negb (is_bool (app [x])) && negb (match app [x] with VThunk _ => true | _ => false end)) l = true ->
+  Forall (fun x => match app [x] with VThunk _ => False | _ => True end) l ->
+  runG rec value ip h w (filter_core f sp l) = DoneG h w (inr (mkerr c_type sp)) 0.
+Proof. exact (SeqSpec.filter_needs_booleans rec f sp app PURE l ip h w). Qed.
+Print Assumptions filter_needs_booleans.
+
+(* the built-in ㅅㅂ is that core once its arguments are taken *)
+Theorem bi_filter_is_core sp a fv :
+  bi_filter sp [a; fv] =
+  (check_arity sp 2 [2%nat] ;;; sq <- force a ;; check_type sp [sq] is_list ;;; f <- functional sp fv false ;;
+   match sq with VList l => filter_core f sp l | _ => raise c_type sp end).
+Proof. exact (SeqSpec.bi_filter_is_core sp a fv). Qed.
+Print Assumptions bi_filter_is_core.
+
